@@ -2,6 +2,7 @@
 mod c01;
 mod c02s;
 mod c05;
+mod c05fs;
 mod c07;
 mod c08;
 mod c09;
@@ -36,6 +37,9 @@ fn replay(path: &str) {
     let v: Value = serde_json::from_slice(&std::fs::read(path).expect("replay file")).expect("json");
     let v = if v.get("replay").is_some() { v["replay"].clone() } else { v };
     let name = v["harness"].as_str().unwrap();
+    if name == "c05_fs" {
+        std::process::exit(c05fs::replay(&v));
+    }
     if name == "history" {
         let cfg: hr::HCfg = serde_json::from_value(v["params"]["cfg"].clone()).expect("cfg");
         let ops: Vec<String> = v["params"]["ops"].as_array().unwrap().iter().map(|x| x.as_str().unwrap().to_string()).collect();
@@ -95,6 +99,7 @@ fn main() {
         "c02_seeds" => c02s::run(&args),
         "c07_window" => c07::run(&args),
         "c05_sched" => c05::run_sched(&args),
+        "c05_fs" => c05fs::run(&args),
         "c05_conv" | "c06_precise" => c05::run(&args, &args.subcheck.clone()),
         "c08_callers" => c08::callers(&args),
         "c08_shapes" => c08::shapes(&args),
